@@ -1,15 +1,7 @@
 """
-Rules on the walk of genhkl_base that are decided by *evaluating fragments* of the function (E7) instead of matching
-their text:
-
- tail    the statements after the loop nest, with the two accumulators replaced by symbolic tables (two accepted
-         reflections h_r and their stl_r): the value returned must be the rows [h_r | stl_r] reordered by argsort of the
-         stl_r, without the stl column when output_stl is None
- steps   inside the loop nest every statement `X = Y + <step>` is evaluated with a symbolic cone: the steps are exactly the
-         three generators of the current cone, the row step forming a new point, the plane / cone steps accumulating
- tests   every test of the loop nest on the running sin(theta)/lambda is evaluated on the seven regions of its value
-         relative to sintlmin, sintlmax and the (scaled) cut-off: the acceptance test is true exactly on (min, max], the
-         three loop exits treat the cut-off itself as inside
+Values and evaluator used when genhkl_base is evaluated as a whole (props/hklrun.py): an argsort is a permutation that makes
+its keys ascending, a table indexed by it is `Sorted(rows, keys)` -- the rows in the order they were accumulated together with
+the key each of them is ordered by.
 """
 import ast
 
@@ -95,264 +87,3 @@ def _bind_params(ev, fn, given):
             j = i - (len(params) - nd)
             env[p] = ev.eval(fn.args.defaults[j], {}) if j >= 0 else _R.atom(p)
     return env
-
-
-def run_prefix(mod, evcls=ObjEvaluator, Laue="-3", cc="rhombohedral", csys="trigonal", output_stl=None, sign=1):
-    """-> (evaluator, environment when the first loop is reached, that loop, the statements after it)"""
-    fn = mod.func("genhkl_base")
-    ev = evcls(mod, inline=set(), max_depth=8, sign_policy=lambda d, node=None: sign)
-    env = _bind_params(ev, fn, {"Laue_class": Laue, "cell_choice": cc, "crystal_system": csys, "unit_cell": sym_array("unit_cell", (6,)),
-                                "sysconditions": sym_array("sysconditions", (26,)), "sintlmin": Rat.atom("sintlmin"),
-                                "sintlmax": Rat.atom("sintlmax"), "output_stl": output_stl})
-    body = core.body_wo_doc(fn)
-    for i, st in enumerate(body):
-        if isinstance(st, (ast.For, ast.While)):
-            # a loop that can be evaluated (a scan of a static table) belongs to the prefix; the walk cannot be evaluated
-            trial = {k_: (v_.copy() if isinstance(v_, Arr) else v_) for k_, v_ in env.items()}
-            try:
-                ev.exec_stmt(st, trial)
-                env.clear()
-                env.update(trial)
-                continue
-            except (PyRaise, RaiseReached, _Return):
-                raise AnalysisError("genhkl_base rejects Laue class %r / %r before the walk" % (Laue, cc))
-            except AnalysisError:
-                return ev, env, st, body[i + 1:]
-        try:
-            ev.exec_stmt(st, env)
-        except (PyRaise, RaiseReached, _Return):
-            raise AnalysisError("genhkl_base rejects Laue class %r / %r before the walk" % (Laue, cc))
-    raise AnalysisError("genhkl_base: no loop over the cones found")
-
-
-def stored_names(node):
-    out = set()
-    for n_ in ast.walk(node):
-        if isinstance(n_, ast.Name) and isinstance(n_.ctx, ast.Store):
-            out.add(n_.id)
-    return out
-
-
-def analyse_tail(ctx, mod, short):
-    fn = mod.func("genhkl_base")
-    where = core.loc(mod, fn)
-    ok, why = True, ""
-    for flag, ncols in ((None, 3), (True, 4)):
-        ev, env, loop, rest = run_prefix(mod, TailEval, output_stl=flag)
-        # accumulators: arrays that are empty when the walk starts and assigned inside it
-        acc = [n_ for n_ in stored_names(loop) if isinstance(env.get(n_), Arr) and 0 in (getattr(env[n_], "zshape", None) or env[n_].shape)]
-        hkl_rows = [[Rat.atom("hkl%d[%d]" % (r, c)) for c in range(3)] for r in range(2)]
-        stl_vals = [Rat.atom("stl%d" % r) for r in range(2)]
-        roles = {}
-        for n_ in acc:
-            shp = getattr(env[n_], "zshape", None) or env[n_].shape
-            if tuple(shp) == (0, 3):
-                env[n_] = Arr([list(r) for r in hkl_rows]); roles[n_] = "hkl"
-            elif tuple(shp) == (0,):
-                env[n_] = Arr(list(stl_vals)); roles[n_] = "stl"
-            elif tuple(shp) == (0, 4):
-                env[n_] = Arr([list(r) + [s_] for r, s_ in zip(hkl_rows, stl_vals)]); roles[n_] = "both"
-        if sorted(roles.values()) not in (["hkl", "stl"], ["both"]):
-            raise AnalysisError("%s.genhkl_base: the accumulators of the walk were not recognised (%s)" % (short, roles))
-        try:
-            ev.exec_block(rest, env)
-            out = None
-        except _Return as r:
-            out = r.value
-        except (PyRaise, RaiseReached) as e:
-            raise AnalysisError("%s.genhkl_base: the statements after the walk raise on a two-row table" % short)
-        if not isinstance(out, Sorted):
-            ok, why = False, "the value returned is not the table reordered by an argsort (%s)" % type(out).__name__
-            continue
-        good = len(out.rows) == 2 and all(len(r) == ncols for r in out.rows)
-        if good:
-            for r in range(2):
-                good = good and all(out.rows[r][c].equals(hkl_rows[r][c]) for c in range(3)) and out.keys[r].equals(stl_vals[r])
-                if ncols == 4:
-                    good = good and out.rows[r][3].equals(stl_vals[r])
-        if not good:
-            ok, why = False, "with output_stl=%r the rows are %s sorted by %s" % (flag, [[x.key() for x in r] for r in out.rows], [k.key() for k in out.keys])
-    ctx.check(ok, "C06:sort:%s" % short,
-              "the rows are not [hkl | stl] sorted by the stl column (argsort over column 3) before being returned: %s" % why, where)
-
-
-def analyse_steps(ctx, mod, short):
-    fn = mod.func("genhkl_base")
-    where = core.loc(mod, fn)
-    ev, env, loop, _rest = run_prefix(mod)
-    if not isinstance(loop, ast.For):
-        raise AnalysisError("%s.genhkl_base: the cones are not visited by a for loop" % short)
-    cone = [[Rat.atom("cone[%d,%d]" % (r, c)) for c in range(3)] for r in range(4)]
-    # the table that is iterated: replace every (n,4,3) table of the environment by one symbolic cone
-    for n_, v in list(env.items()):
-        A = v if isinstance(v, Arr) else None
-        if A is not None and len(A.shape) == 3 and A.shape[1:] == (4, 3):
-            env[n_] = Arr([[list(r) for r in cone]])
-    it = ev.eval(loop.iter, env)
-    if isinstance(it, Arr):
-        it = [Arr(x) if isinstance(x, list) else x for x in it.data]
-    if not isinstance(it, (list, tuple)) or len(it) != 1:
-        raise AnalysisError("%s.genhkl_base: the loop over the cones does not run once per cone of the table" % short)
-    ev.assign(loop.target, it[0], env)
-    # statements of the loop body up to the first inner loop initialise the running points
-    inner = None
-    for st in loop.body:
-        if isinstance(st, (ast.While, ast.For)):
-            inner = st
-            break
-        try:
-            ev.exec_stmt(st, env)
-        except AnalysisError:
-            pass
-    if inner is None:
-        raise AnalysisError("%s.genhkl_base: no loop nest inside the loop over the cones" % short)
-    start_ok = []
-    steps = {}
-    for n_ in ast.walk(inner):
-        if isinstance(n_, ast.Assign) and len(n_.targets) == 1 and isinstance(n_.targets[0], ast.Name) and isinstance(n_.value, ast.BinOp) \
-                and isinstance(n_.value.op, ast.Add):
-            for base_node, step_node in ((n_.value.left, n_.value.right), (n_.value.right, n_.value.left)):
-                if not isinstance(base_node, ast.Name):
-                    continue
-                try:
-                    sv = ev.eval(step_node, env)
-                except AnalysisError:
-                    continue
-                S = sv if isinstance(sv, Arr) else materialise(sv) if isinstance(sv, (list, tuple, Opaque)) else None
-                if S is None or S.shape != (3,):
-                    continue
-                for k in (1, 2, 3):
-                    if all(scalar(S.data[c]).equals(cone[k][c]) for c in range(3)):
-                        steps.setdefault(k, []).append((n_.targets[0].id, base_node.id))
-    ok_steps = sorted(steps) == [1, 2, 3] and all(len(v) == 1 for v in steps.values()) \
-        and steps[2][0][0] == steps[2][0][1] and steps[3][0][0] == steps[3][0][1]
-    # every running point starts at the apex of the cone
-    def vec3(v):
-        A = v if isinstance(v, Arr) else (materialise(v) if isinstance(v, (list, tuple)) and len(v) == 3 else None)
-        return A if A is not None and A.shape == (3,) else None
-    starts = [n_ for n_, v in env.items() if vec3(v) is not None and all(scalar(vec3(v).data[c]).equals(cone[0][c]) for c in range(3))]
-    ok_start = ok_steps and all(steps[k][0][1] in starts for k in (1, 2, 3))
-    ctx.check(ok_steps and ok_start, "C06:sort:%s:steps" % short,
-              "the walk does not advance by the cone generators g1 (row), g2 (plane), g3 (cone) of the current table from its apex: "
-              "steps %s, points starting at the apex %s" % (steps, sorted(starts)), where)
-
-
-REGIONS = ("below-min", "at-min", "in-shell", "at-max", "between", "at-cutoff", "beyond")
-
-
-def analyse_tests(ctx, mod, short, emit=("shell", "stops")):
-    """-> the acceptance tests (AST nodes) and the names holding sin(theta)/lambda"""
-    fn = mod.func("genhkl_base")
-    where = core.loc(mod, fn)
-    ev, env, loop, _rest = run_prefix(mod)           # Laue -3 / rhombohedral: the cut-off is scaled, so it differs from sintlmax
-    # names that hold sin(theta)/lambda of a point: assigned from a call of sintl
-    svars = set()
-    for n_ in ast.walk(fn):
-        if isinstance(n_, ast.Assign) and isinstance(n_.value, ast.Call) and getattr(n_.value.func, "id", "") == "sintl":
-            svars |= {t.id for t in n_.targets if isinstance(t, ast.Name)}
-    if not svars:
-        raise AnalysisError("%s.genhkl_base: no value is obtained from sintl()" % short)
-    s = Rat.atom("s")
-    lo, hi = Rat.atom("sintlmin"), Rat.atom("sintlmax")
-    # the cut-off: whatever multiple of sintlmax the tests compare with, found from the differences asked
-    asked = []
-    tests = []
-    for n_ in ast.walk(loop):
-        t = n_.test if isinstance(n_, (ast.If, ast.While, ast.IfExp)) else None
-        if t is not None and {x.id for x in ast.walk(t) if isinstance(x, ast.Name)} & svars:
-            tests.append(t)
-
-    def thresholds_of(d):
-        """d = a*s - T with T a combination of sintlmin / sintlmax -> (sign of a, T/a)"""
-        a = d.subs({"s": Rat.const(1), "sintlmin": Rat.const(0), "sintlmax": Rat.const(0)})
-        if not a.is_const() or a.const_value() == 0:
-            return None
-        T = (s * a - d) / a
-        if not (T.atoms() <= {"sintlmin", "sintlmax"}):
-            return None
-        return (1 if a.const_value() > 0 else -1), T
-    cutoffs = set()
-    for t in tests:
-        def probe(d, node=None):
-            th = thresholds_of(d)
-            if th is not None:
-                asked.append(th[1])
-            return 1
-        e2 = ObjEvaluator(mod, inline=set(), sign_policy=probe)
-        env2 = dict(env)
-        for v in svars:
-            env2[v] = s
-        try:
-            e2.eval(t, env2)
-        except AnalysisError:
-            pass
-    cut = [T for T in asked if not T.equals(lo) and not T.equals(hi)]
-    cutoff = cut[0] if cut else hi
-    if any(not T.equals(cutoff) for T in cut):
-        raise AnalysisError("%s.genhkl_base: the loop exits compare with different cut-offs" % short)
-    ratio = cutoff / hi
-    if not (ratio.is_const() and ratio.const_value() >= 1):
-        raise AnalysisError("%s.genhkl_base: the cut-off of the walk is not a multiple >= 1 of sintlmax" % short)
-    order = [lo, hi, cutoff]        # lo < hi <= cutoff
-
-    def oracle(region):
-        pos = {"below-min": -1, "at-min": 0, "in-shell": 1, "at-max": 2, "between": 3, "at-cutoff": 4, "beyond": 5}[region]
-        # position of s on the scale  min=0, max=2, cutoff=4 (odd numbers are the open intervals)
-        def signs(d, node=None):
-            th = thresholds_of(d)
-            if th is None:
-                return None
-            sa, T = th
-            tp = 0 if T.equals(lo) else 2 if T.equals(hi) else 4 if T.equals(cutoff) else None
-            if tp is None:
-                return None
-            if cutoff.equals(hi) and tp == 2:
-                tp = 2
-            rel = (pos > tp) - (pos < tp)
-            return sa * rel
-        return signs
-    regions = list(REGIONS)
-    if cutoff.equals(hi):
-        regions = ["below-min", "at-min", "in-shell", "at-max", "beyond"]
-    shell, stops, odd = [], [], []
-    for t in tests:
-        vec = []
-        for reg in regions:
-            e2 = ObjEvaluator(mod, inline=set(), sign_policy=oracle(reg))
-            env2 = dict(env)
-            for v in svars:
-                env2[v] = s
-            try:
-                r = e2.eval(t, env2)
-            except AnalysisError:
-                r = None
-            vec.append(r if isinstance(r, bool) else None)
-        if any(v is None for v in vec):
-            raise AnalysisError("%s.genhkl_base: the test `%s` on the running sin(theta)/lambda cannot be evaluated on the regions %s"
-                                % (short, core.unparse(t)[:60], [r_ for r_, v in zip(regions, vec) if v is None]))
-        names = {x.id for x in ast.walk(t) if isinstance(x, ast.Name)}
-        if vec == [False] * len(vec) or vec == [True] * len(vec):
-            continue
-        inside_shell = [reg in ("in-shell", "at-max") for reg in regions]
-        upto_cutoff = [reg != "beyond" for reg in regions]
-        if vec == inside_shell and len(regions) == 7:
-            shell.append(t)
-        elif vec == upto_cutoff or vec == [not x for x in upto_cutoff]:
-            stops.append(t)
-        elif vec == inside_shell:
-            shell.append(t)
-        else:
-            odd.append((core.unparse(t)[:60], vec))
-    if cutoff.equals(hi):
-        raise AnalysisError("%s.genhkl_base: acceptance and cut-off tests cannot be told apart (no scaling for -3 rhombohedral)" % short)
-    ok_shell = len(shell) == 1 and not [o for o in odd if "sintlmin" in o[0]]
-    if "shell" in emit:
-      ctx.check(ok_shell, "C06:shell:%s" % short,
-              "acceptance is not `s > sintlmin and s <= sintlmax` (exclusive lower, inclusive upper bound): tests true exactly on (min, max]: %d; "
-              "other tests on the value: %s" % (len(shell), odd[:2]), where, sample={"regions": regions, "acceptance_tests": len(shell)})
-    ok_stops = len(stops) == 3 and not odd
-    if "stops" in emit:
-      ctx.check(ok_stops, "C05:earlyexit:%s.stop-tests" % short,
-              "the three loop exits are not `sintlH <= sintlmax*scale` (continue row) / `sintlH > sintlmax*scale` (leave plane, leave cone): "
-              "%d tests treat the cut-off itself as inside; other tests on the value: %s" % (len(stops), odd[:2]), where)
-    return shell, svars
